@@ -1,11 +1,16 @@
 package c09
 
 import (
+	"encoding/binary"
 	"fmt"
+	"math"
+	"math/big"
 	"sort"
 	"strings"
 
+	"github.com/nspcc-dev/neo-go/pkg/core/state"
 	"github.com/nspcc-dev/neo-go/pkg/core/storage"
+	"github.com/nspcc-dev/neo-go/pkg/util"
 )
 
 func isStorKey(k string) bool {
@@ -85,5 +90,149 @@ func (b *battery) changeSets(t int) {
 	sort.Strings(got)
 	if strings.Join(want, "|") != strings.Join(got, "|") {
 		b.fail("mismatch", "getstoragechanges", t, "", "GetStorageChanges()", strings.Join(want, " | "), strings.Join(got, " | "), "")
+	}
+}
+
+// ---- dao.Simple.SeekNEP17TransferLog / SeekNEP11TransferLog ------------------------
+//
+// The only range scans of the node that go backwards from a start point. Run
+// once per DAO-built stack (initial state): logs of one account are spread over
+// the backend (flushed), the lowest layer (pending) and the top layer (one
+// added, one deleted); a neighbouring account and a NEP-11 log must stay out.
+// Reference: all transfers of logs with timestamp <= newestTimestamp that are
+// visible from the level, newest log first (timestamp, then batch index),
+// within a log newest first. The bound is inclusive: the RPC server passes its
+// inclusive `end` and only skips transfers with Timestamp > end.
+
+type tlog struct {
+	ts     uint64
+	idx    uint32
+	blocks []uint32
+}
+
+func tlogKey(nep11 bool, acc util.Uint160, ts uint64, idx uint32) []byte {
+	k := make([]byte, 1+util.Uint160Size+12)
+	k[0] = byte(storage.STNEP17Transfers)
+	if nep11 {
+		k[0] = byte(storage.STNEP11Transfers)
+	}
+	copy(k[1:], acc.BytesBE())
+	binary.BigEndian.PutUint64(k[1+util.Uint160Size:], ts)
+	binary.BigEndian.PutUint32(k[1+util.Uint160Size+8:], idx)
+	return k
+}
+
+func (b *battery) transferLogs() {
+	daos := b.s.daos
+	n := len(daos)
+	acc, acc2 := util.Uint160{0xaa}, util.Uint160{0xaa, 1}
+	mk := func(ts uint64, blocks ...uint32) *state.TokenTransferLog {
+		lg := new(state.TokenTransferLog)
+		for _, bl := range blocks {
+			if err := lg.Append(&state.NEP17Transfer{Asset: 1, Amount: big.NewInt(int64(bl)), Block: bl, Timestamp: ts}); err != nil {
+				panic(err)
+			}
+		}
+		return lg
+	}
+	b.cur = func() (string, int, string, string) { return "dao.seeknep17", 0, "setup", "" }
+	d0 := daos[0]
+	d0.PutTokenTransferLog(acc, 10, 0, false, mk(10, 101, 102))
+	d0.PutTokenTransferLog(acc, 20, 0, false, mk(20, 201))
+	d0.PutTokenTransferLog(acc, 20, 1, false, mk(20, 202))
+	d0.PutTokenTransferLog(acc2, 15, 0, false, mk(15, 901))
+	lg11 := new(state.TokenTransferLog)
+	if err := lg11.Append(&state.NEP11Transfer{NEP17Transfer: state.NEP17Transfer{Asset: 1, Amount: big.NewInt(1), Block: 1101, Timestamp: 12}, ID: []byte{7}}); err != nil {
+		panic(err)
+	}
+	d0.PutTokenTransferLog(acc, 12, 0, true, lg11)
+	if _, err := d0.Persist(); err != nil {
+		panic(err)
+	}
+	perLevel := make([][]tlog, n+1) // visible logs of acc per dao level (1-based)
+	flushed := []tlog{{10, 0, []uint32{101, 102}}, {20, 0, []uint32{201}}, {20, 1, []uint32{202}}}
+	d0.PutTokenTransferLog(acc, 30, 0, false, mk(30, 301))
+	l1 := append(append([]tlog{}, flushed...), tlog{30, 0, []uint32{301}})
+	for t := 1; t <= n; t++ {
+		perLevel[t] = l1
+	}
+	top := daos[n-1]
+	top.PutTokenTransferLog(acc, 40, 0, false, mk(40, 401))
+	top.Store.Delete(tlogKey(false, acc, 20, 1))
+	var lt []tlog
+	for _, l := range l1 {
+		if !(l.ts == 20 && l.idx == 1) {
+			lt = append(lt, l)
+		}
+	}
+	perLevel[n] = append(lt, tlog{40, 0, []uint32{401}})
+
+	for t := 1; t <= n; t++ {
+		d := daos[t-1]
+		for _, newest := range []uint64{5, 10, 11, 19, 20, 21, 30, 39, 40, 1 << 63, math.MaxUint64} {
+			for _, stop := range []int{0, 2} {
+				var want, wantExcl []uint32
+				logs := append([]tlog{}, perLevel[t]...)
+				sort.Slice(logs, func(i, j int) bool {
+					if logs[i].ts != logs[j].ts {
+						return logs[i].ts > logs[j].ts
+					}
+					return logs[i].idx > logs[j].idx
+				})
+				for _, l := range logs {
+					if l.ts > newest {
+						continue
+					}
+					for i := len(l.blocks) - 1; i >= 0; i-- {
+						want = append(want, l.blocks[i])
+						if l.ts != newest {
+							wantExcl = append(wantExcl, l.blocks[i])
+						}
+					}
+				}
+				if stop > 0 && len(want) > stop {
+					want = want[:stop]
+				}
+				if stop > 0 && len(wantExcl) > stop {
+					wantExcl = wantExcl[:stop]
+				}
+				query := fmt.Sprintf("SeekNEP17TransferLog(acc, newestTimestamp=%d) stop-after=%d", newest, stop)
+				b.cur = func() (string, int, string, string) { return "dao.seeknep17", t, query, "" }
+				b.nq++
+				var got []uint32
+				err := d.SeekNEP17TransferLog(acc, newest, func(tr *state.NEP17Transfer) (bool, error) {
+					got = append(got, tr.Block)
+					return !(stop > 0 && len(got) == stop), nil
+				})
+				b.out[fmt.Sprintf("dao.seeknep17->%dres", min(len(got), 3))]++
+				if err != nil {
+					b.fail("error", "dao.seeknep17", t, "", query, "nil", err.Error(), "")
+					continue
+				}
+				if fmt.Sprint(got) != fmt.Sprint(want) {
+					known := ""
+					if fmt.Sprint(got) == fmt.Sprint(wantExcl) {
+						known = "transferlog-seek:log-with-timestamp-equal-to-newest-skipped"
+					}
+					flags := "newest-between-logs"
+					for _, l := range logs {
+						if l.ts == newest {
+							flags = "newest-equals-log-timestamp"
+						}
+					}
+					b.fail("mismatch", "dao.seeknep17", t, flags, query, fmt.Sprintf("transfers of blocks %v", want), fmt.Sprintf("%v", got), known)
+				}
+			}
+		}
+		b.cur = func() (string, int, string, string) { return "dao.seeknep11", t, "SeekNEP11TransferLog(acc, max)", "" }
+		b.nq++
+		var got11 []uint32
+		_ = d.SeekNEP11TransferLog(acc, math.MaxUint64, func(tr *state.NEP11Transfer) (bool, error) {
+			got11 = append(got11, tr.Block)
+			return true, nil
+		})
+		if fmt.Sprint(got11) != "[1101]" {
+			b.fail("mismatch", "dao.seeknep11", t, "", "SeekNEP11TransferLog(acc, max)", "[1101]", fmt.Sprint(got11), "")
+		}
 	}
 }
